@@ -3,7 +3,7 @@
     handlers [n], subscribers honouring their context or not [hon], any number of messages and
     Close callers, timeouts firing at any moment).  Flags: fix5 / fix6 / fix12 = the repairs of
     D5 / D6 / D12 (true = the code after the fix: commits). *)
-From WM Require Import Base.Prelude Router.Close Router.CloseMonitor Router.CloseProofs Router.CloseTheorems Router.CloseWitness.
+From WM Require Import Base.Prelude Router.Close Router.CloseMonitor Router.CloseProofs Router.CloseTheorems Router.CloseWitness Router.CloseRefine Router.CloseStuck.
 
 (** a Close call that returned nil: no handler invocation in progress, no message in the
     pipeline (each one taken from the subscriber has been handled to completion and settled),
@@ -97,8 +97,9 @@ Print Assumptions C06_timeout_returns_error_alone.
 (** every Close call returns - the part that is proved: in every reachable state some Close
     call can move whenever one has not returned (the lock holder is never blocked), and each
     call takes at most six steps of its own.  _partial: that the scheduler eventually runs the
-    enabled closer (fairness) is assumed, not proved; that the wait ends WITHOUT the timeout
-    when no handler is running is proved only as the refutation of D6 above. *)
+    enabled closer (fairness) is assumed, not proved - that is all that is missing: what can
+    keep the wait from ending without the timeout is characterised completely by
+    [C06_close_waits_only_for_handlers_or_blocked_subscriber] below. *)
 Theorem C06_every_close_returns_partial :
   (forall n hon f5 f6 f12 sched c,
      let s := exec (init n hon f5 f6 f12) sched in
@@ -108,6 +109,25 @@ Theorem C06_every_close_returns_partial :
      (own_label l c = false -> cp s' c = cp s c)).
 Proof. exact (conj close_never_stuck close_steps_bounded). Qed.
 Print Assumptions C06_every_close_returns_partial.
+
+(** what can keep a Close call waiting (the general stuck-state theorem of the repaired protocol):
+    in every reachable state in which a call waits and NO system step is enabled - i.e. everything
+    but the environment's own choices (a new Close call, the user's cancel, an emission, a handler
+    function returning, the subscriber's own Close() returning, the clock) has come to a halt -
+    a handler function is still running, or a handleClose goroutine is blocked inside its
+    subscriber's Close(), or the user had cancelled Run's context before Close signalled (the
+    known finding).  Nothing else - no lock, wait group, channel or goroutine of the Router - can
+    keep Close from finishing without the timeout.  Together with
+    [C06_every_close_returns_partial] and [C06_timeout_returns_error_alone]: a Close call returns
+    as soon as the scheduler runs it (fairness of the Go scheduler is the only assumption left). *)
+Theorem C06_close_waits_only_for_handlers_or_blocked_subscriber :
+  forall n hon f12 sched c,
+    let s := exec (init n hon true true f12) sched in
+    cp s c = CWait ->
+    (forall l, sys_label l = true -> step s l = None) ->
+    (exists m, mp s m = MRunning) \/ (exists h, hc s h = HCInSubClose) \/ early_cancel s = true.
+Proof. exact close_waits_only_for. Qed.
+Print Assumptions C06_close_waits_only_for_handlers_or_blocked_subscriber.
 
 (** Run returns only after the close has completed: closedCh is closed, the result is decided,
     no Close call is still signalling or waiting - and after a nil result everything is at rest *)
@@ -129,6 +149,15 @@ Theorem C06_concurrent_close :
   (forall n hon f5 f6 f12 sched, panicked (exec (init n hon f5 f6 f12) sched) = false).
 Proof. exact (conj close_exclusive no_panic). Qed.
 Print Assumptions C06_concurrent_close.
+
+(** the link between the model and the executable acceptor the check evaluates on implementation
+    histories: EVERY API trace of the repaired model (any handlers, subscribers, schedule; [trace]
+    is the function Corr/C06.v uses) is accepted - [mon_run] reports no rejection at all
+    (simulation relation between model state and acceptor state, Router/CloseRefine.v) *)
+Theorem C06_acceptor_accepts_model :
+  forall nh hp n hon f6 ls, mon_run nh hp (trace (init n hon true f6 true) ls) = [].
+Proof. exact mon_accepts_model. Qed.
+Print Assumptions C06_acceptor_accepts_model.
 
 (** the hypotheses are satisfiable and the behaviour is not trivial: a close that overlaps a
     message in the pipeline, waits for it, returns nil, with everything closed and the acceptor
@@ -160,3 +189,42 @@ Example C06_blocked_subscriber_close_example :
   | None => false
   end = true.
 Proof. exact blocked_sub_close_example. Qed.
+
+(** ** handlers that were added but never started (D16): [init_u n u] has [u] such handlers *)
+
+(** the pinned code: Close can only time out although nothing runs, nothing is blocked, the
+    context was not cancelled and no system step is enabled *)
+Theorem C06_unstarted_handler_blocks_close_refuted :
+  match replay (init_u 0 1 ignore_ctx true true true false) d16_schedule with
+  | Some s => match cp s 0 with CWait => true | _ => false end && negb (early_cancel s) &&
+              negb (handler_running_b s) && match sys_enabled s 1 with [] => true | _ => false end
+  | None => false
+  end = true.
+Proof. exact d16_witness. Qed.
+Print Assumptions C06_unstarted_handler_blocks_close_refuted.
+
+(** repaired: with any number of never-started handlers the stuck-state theorem and the
+    quiescence theorem hold unchanged *)
+Theorem C06_close_waits_only_for_handlers_or_blocked_subscriber_with_unstarted :
+  forall n u hon f12 sched c,
+    let s := exec (init_u n u hon true true f12 true) sched in
+    cp s c = CWait ->
+    (forall l, sys_label l = true -> step s l = None) ->
+    (exists m, mp s m = MRunning) \/ (exists h, hc s h = HCInSubClose) \/ early_cancel s = true.
+Proof. exact close_waits_only_for_u. Qed.
+Print Assumptions C06_close_waits_only_for_handlers_or_blocked_subscriber_with_unstarted.
+
+Theorem C06_close_nil_implies_quiescent_with_unstarted :
+  forall n u hon f6 f16 sched c,
+    let s := exec (init_u n u hon true f6 true f16) sched in
+    cp s c = CRet RNil -> quiescent s.
+Proof. exact close_nil_implies_quiescent_u. Qed.
+Print Assumptions C06_close_nil_implies_quiescent_with_unstarted.
+
+Example C06_unstarted_handler_fixed_example :
+  match replay (init_u 0 1 ignore_ctx true true true true)
+               (d16_schedule ++ [LW1; LW2; LW2; LW2; LWaitDone 0; LClose 0; LClose 0; LRun]) with
+  | Some s => returned s 0 RNil && match run s with RDone => true | _ => false end
+  | None => false
+  end = true.
+Proof. exact d16_fixed_returns_nil. Qed.
